@@ -752,6 +752,12 @@ class introduction(Method):
             names = [name.strip() for name in data['names'].split(",")]
         else:
             names = []
+
+        # The names for the new variables should not capture variables
+        # that occur in the goal.
+        used_names = [v.name for v in prop.get_vars()]
+        for name in names:
+            assert name not in used_names, "introduction: variable %s already occurs in the goal" % name
         pt = intros_tac.get_proof_term(cur_item.th, args=names)
 
         cur_item.rule = "subproof"
